@@ -182,6 +182,13 @@ _ARGS = {
 _MORE = {
     # attribution after round d
     ('mchap.application.baseclass', 'program.encode_sample_reads'): ['C03'],       # the read tensor and counts every likelihood is taken of
+    # attribution after round e: the genotype index keys the likelihood caches of the calling and pedigree samplers
+    ('mchap.jitutils', 'genotype_alleles_as_index'): ['C09', 'C18'],
+    ('mchap.jitutils', 'comb_with_replacement'): ['C09', 'C18'],
+    ('mchap.jitutils', '_comb_with_replacement'): ['C09', 'C18'],
+    ('mchap.jitutils', 'comb'): ['C09', 'C18'],
+    ('mchap.jitutils', '_comb'): ['C09', 'C18'],
+    ('mchap.calling.likelihood', 'log_likelihood_alleles_cached'): ['C04'],         # the value the calling sampler takes as the read likelihood
     ('mchap.application.baseclass', 'program.require_AFP'): ['C03'],                # which report fields switch the posterior summaries on
     ('mchap.calling.classes', 'CallingMCMC.fit'): ['C02', 'C14'],                 # chains run, collected and wrapped into the multi-trace
     ('mchap.pedigree.classes', 'PedigreeCallingMCMC.fit'): ['C18', 'C14'],
@@ -250,10 +257,15 @@ SLICES = {
                                                                               PM + 'classes.PedigreeAllelesMultiTrace.individual'], ['GP']),
             ('call_exact', 'allele count that sizes the genotype vectors', [CM + 'exact.genotype_likelihoods', CM + 'exact.genotype_posteriors'], ['GP', 'GL'])],
     'C05': [(AM + 'mcmc', 'prior parameters handed to every move of the assembly sampler', [AM + 'mutation.', AM + 'structural.', AM + 'tempering.'],
-             None, ['inbreeding', 'log_unique_haplotypes', 'unique_haplotypes'], '_denovo_assembler')],
+             None, ['inbreeding', 'log_unique_haplotypes', 'unique_haplotypes'], '_denovo_assembler'),
+            # the prior a sample is called under is the one of its own inbreeding coefficient and of the locus frequencies
+            ('call', 'prior parameters of the calling sampler', [CM + 'classes.CallingMCMC'], None, ['inbreeding', 'frequencies']),
+            ('call_exact', 'prior parameters of the exact caller', [CM + 'exact.'], None, ['inbreeding', 'frequencies'])],
     'C10': [('assemble', 'per-sample parameters of the sampler', [AM + 'mcmc.DenovoMCMC'], None, ['ploidy', 'inbreeding', 'temperatures']),
             ('call', 'per-sample parameters of the sampler', [CM + 'classes.CallingMCMC'], None, ['ploidy', 'inbreeding']),
-            ('call_exact', 'per-sample parameters of the exact caller', [CM + 'exact.'], None, ['ploidy', 'inbreeding'])],
+            ('call_exact', 'per-sample parameters of the exact caller', [CM + 'exact.'], None, ['ploidy', 'inbreeding']),
+            # what a sample's GT means must not depend on what the other samples carry: labels against the population list
+            ('assemble', 'labelling of each sample against the population list', [AM + 'haplotype_calling.', APP + 'assemble._genotype', 'mchap.mset.categorize'], ['GT'])],
     'C09': [(PM + 'classes', 'what fit hands to the sampler (no cache from outside the fit)', [PM + 'mcmc.mcmc_sampler'], None, None, 'PedigreeCallingMCMC.fit'),
             (CM + 'classes', 'what fit hands to the sampler (no cache from outside the fit)', [CM + 'mcmc.mcmc_sampler'], None, None, 'CallingMCMC.fit')],
     'C03': [('call_exact', 'exact posterior calls and the fields derived from them', [CM + 'exact.', J + '.index_as_genotype_alleles'],
@@ -269,6 +281,13 @@ SLICES = {
     'C16': [('call', 'masked alleles and prior frequencies', [CM + 'classes.CallingMCMC', CM + 'classes.GenotypeAllelesMultiTrace.relabel'], ['AFPRIOR', 'GT']),
             ('call_exact', 'prior frequencies', [CM + 'exact.'], ['AFPRIOR'], ['frequencies', 'haplotypes']),
             ('call_pedigree', 'masked alleles and prior frequencies', [PM + 'classes.PedigreeCallingMCMC', CM + 'classes.GenotypeAllelesMultiTrace.relabel'], ['AFPRIOR', 'GT'])],
+    # every per-sample field of a record is computed from that sample's own posterior / trace, with that sample's ploidy
+    'C07': [('assemble', 'per-sample fields of the record', [AM + 'classes.', APP + 'assemble._genotype'], _SUMMARY_FIELDS),
+            ('call', 'per-sample fields of the record', _TRACE_C, _SUMMARY_FIELDS),
+            ('call_exact', 'per-sample fields of the record', [CM + 'exact.', J + '.index_as_genotype_alleles'],
+             ['GT', 'GPM', 'GQ', 'SPM', 'SQ', 'AFP', 'ACP', 'AOP', 'GP', 'GL']),
+            ('call_pedigree', 'per-sample fields of the record',
+             _TRACE_C + [PM + 'classes.PedigreeAllelesMultiTrace.burn', PM + 'classes.PedigreeAllelesMultiTrace.individual'], _SUMMARY_FIELDS)],
     'C17': [('call_pedigree', 'pedigree error statistic', [PM + 'classes.PedigreeAllelesMultiTrace.incongruence'], ['PEDERR'])],
     'C18': [('call_pedigree', 'construction, fit and burn-in of the pedigree sampler',
              [PM + 'classes.PedigreeCallingMCMC', PM + 'classes.PedigreeAllelesMultiTrace.burn', PM + 'classes.PedigreeAllelesMultiTrace.individual'], None),
@@ -298,10 +317,75 @@ def _zero_is_a_value(ctx, pid):
                   + (f" (`{ast.unparse(bad[0])}`)" if bad else ""), f.where(bad[0]) if bad else f.where())
 
 
+# classes whose dataclass fields are the options / model parameters a run was given, and the properties that rest on them
+_OPTION_CLASSES = {
+    'mchap.application.baseclass.program': ['C06', 'C07', 'C08', 'C10', 'C12'],
+    'mchap.application.call_baseclass.program': ['C07', 'C12', 'C16'],
+    'mchap.application.assemble.program': ['C01', 'C07', 'C10', 'C13', 'C14', 'C15'],
+    'mchap.application.call.program': ['C02', 'C05', 'C07', 'C10', 'C14', 'C16'],
+    'mchap.application.call_exact.program': ['C03', 'C05', 'C07', 'C10', 'C16'],
+    'mchap.application.call_pedigree.program': ['C07', 'C14', 'C16', 'C17', 'C18'],
+    'mchap.assemble.mcmc.DenovoMCMC': ['C01', 'C09', 'C15'],
+    'mchap.calling.classes.CallingMCMC': ['C02', 'C09'],
+    'mchap.pedigree.classes.PedigreeCallingMCMC': ['C17', 'C18'],
+}
+
+
+def _self_field_writes(cls_node, fields):
+    """(method, field) for every store into `self.<dataclass field>` in the methods of a class"""
+    import ast
+    out = {}
+    for m in cls_node.body:
+        if not isinstance(m, ast.FunctionDef):
+            continue
+        for n in ast.walk(m):
+            tgts = []
+            if isinstance(n, ast.Assign):
+                tgts = n.targets
+            elif isinstance(n, (ast.AugAssign, ast.AnnAssign)):
+                tgts = [n.target]
+            elif isinstance(n, ast.Call) and isinstance(n.func, ast.Name) and n.func.id == 'setattr' and len(n.args) >= 2 \
+                    and isinstance(n.args[0], ast.Name) and n.args[0].id == 'self':
+                key = n.args[1].value if isinstance(n.args[1], ast.Constant) else '*'
+                if key == '*' or key in fields:
+                    out.setdefault((m.name, key), n)
+            for t in tgts:
+                for e in (t.elts if isinstance(t, (ast.Tuple, ast.List)) else [t]):
+                    if isinstance(e, ast.Attribute) and isinstance(e.value, ast.Name) and e.value.id == 'self' and e.attr in fields:
+                        out.setdefault((m.name, e.attr), n)
+    return out
+
+
+def _options_not_overwritten(ctx, pid):
+    """the options a program or sampler object was constructed with are what its methods work with: no method (a `__post_init__`
+    least of all) stores into a dataclass field unless the confirmed tree has the same store.  A value replaced after construction
+    (a threshold of 0 "defaulted", a seed re-derived, a ploidy map completed) changes what every rule below assumes was handed over."""
+    import ast
+    from .refspec import SPEC_DIR
+    for cq, pids in sorted(_OPTION_CLASSES.items()):
+        if pid not in pids:
+            continue
+        c = ctx.prog.cls(cq)
+        fields = set(ctx.prog.all_fields(c))
+        got = _self_field_writes(c.node, fields)
+        sp = SPEC_DIR / (c.module.modname + '.py')
+        ctx.need(sp.exists(), f"reference file missing: {sp}")
+        ref_cls = [n for n in ast.parse(sp.read_text()).body if isinstance(n, ast.ClassDef) and n.name == c.node.name]
+        ctx.need(bool(ref_cls), f"anchor vanished: class {c.node.name} in the reference of {c.module.modname}")
+        want = _self_field_writes(ref_cls[0], fields)
+        extra = sorted(set(got) - set(want))
+        where = c.module.relpath + f":{got[extra[0]].lineno}" if extra else c.module.relpath
+        ctx.check(not extra, f"R{pid[1:]}.O/options-not-overwritten", f"{c.module.relpath}::{c.node.name}::option fields",
+                  f"{len(fields)} option fields, stores into them in methods: {sorted(got) or 'none'} (as in the confirmed tree)",
+                  "a method stores into an option field of the object after construction: "
+                  + ", ".join(f"{m}: self.{f}" for m, f in extra) + " - the value the run was given is replaced", where)
+
+
 def run(ctx, pid):
     rule = f"R{pid[1:]}.H/reference-agreement"
     n = 0
     _zero_is_a_value(ctx, pid)
+    _options_not_overwritten(ctx, pid)
     for mod, names in HELPERS.get(pid, ()):
         n += refspec.compare_module(ctx, mod, names, rule)
     for prog, what, prefixes, fields, *rest in SLICES.get(pid, ()):
